@@ -87,7 +87,7 @@ pub fn dispatch(m: &mut Machine, op: &str, args: &[Val]) -> R<Out> {
         None => ("", op),
     };
     match fam {
-        "fq" | "fr" | "fq2" | "fq6" | "fq12" | "Q" | "R" => ops_field::run(fam, name, args),
+        "fq" | "fr" | "fq2" | "fq6" | "fq12" | "Q" | "R" | "Tfq" | "Tfr" | "Tfq2" | "Tfq6" | "Tfq12" | "TQ" | "TR" => ops_field::run(fam, name, args),
         "g1" => ops_curve::run::<ops_curve::G1Grp>(m, name, args),
         "g2" => ops_curve::run::<ops_curve::G2Grp>(m, name, args),
         _ => ops_misc::run(m, op, args),
